@@ -159,6 +159,8 @@ def render(prog, widths=(2, 2, 2, 2), per_parent=None, base=0):
             out.append(sp + "!constant" + tc)
         elif k == "prop":
             out.append(sp + ln["text"] + tc)
+        elif k == "import":
+            out.append(sp + ln["text"] + tc)
         elif k == "decl":
             out.append(sp + ln["name"] + " " + ln["type"] + (ln.get("dims") or "")
                        + ((" " + ln["unit"]) if ln.get("unit") else "") + tc)
@@ -292,6 +294,17 @@ def interpret(prog):
         d = ln["d"]
         while stack and stack[-1][0] >= d:
             stack.pop()
+        if k == "import":
+            # `{?src.*}` below a group: every node below `src` so far is copied (value, type, unit as they stand
+            # at this line) to the same relative path below the group
+            prefix = ".".join(n for _, n in stack)
+            for sp_ in [q for q in order if q.startswith(ln["src"] + ".")]:
+                np_ = (prefix + "." if prefix else "") + sp_[len(ln["src"]) + 1:]
+                if np_ in params:
+                    raise ValueError("generator: import over an existing node is not part of the subset")
+                params[np_] = dict(params[sp_], path=np_)
+                order.append(np_)
+            continue
         path = ".".join([n for _, n in stack] + [ln["name"]])
         stack.append((d, ln["name"]))
         if k == "group":
